@@ -1,8 +1,8 @@
 (* C08 -- Self-replacement is a no-op and element substitutions are reversible.
    Proved: replacing a pattern (no two same-element atoms at the same coordinates) by itself, replace_all off, deletes and inserts nothing and
    leaves position, charge and group of every atom unchanged -- for any matches.  Elements: the matched atoms are re-typed to the pattern's
-   types, which resolve to the same elements because the search only matches equal elements (C01_sound).  Term tuples: by
-   C11_terms the pattern adds only what it carries.  The substitution round trip A -> B -> A and "a second search finds none" involve
+   types, which resolve to the same elements because the search only matches equal elements (C01_sound).  Term tuples: unchanged when the pattern has no terms
+   (C08_self_replacement_terms); otherwise by C11_terms the pattern adds only what it carries.  The substitution round trip A -> B -> A and "a second search finds none" involve
    the search's completeness (C02, open) and are validated on every run (partial). *)
 From Coq Require Import List Arith Bool ZArith.
 From Mofun Require Import Lib.NP Model.Atoms Model.Geom Model.Replace Proofs.ReplaceProofs.
@@ -17,6 +17,14 @@ Print Assumptions C08_self_replacement.
 Theorem C08_identity_map : forall P, pattern_distinct P -> unchanged P P = map (fun i => (i, i)) (seq 0 (natoms P)).
 Proof. exact unchanged_self. Qed.
 Print Assumptions C08_identity_map.
+
+(* ... and, when the pattern carries no terms of its own, every bond, angle, dihedral and improper of the structure keeps its atom tuple
+   and its type, in the same order (same_terms: k_tup and k_typ of all four kinds are equal) -- inside, outside and across the matches *)
+Theorem C08_self_replacement_terms : forall S P ig sel S' k, pattern_distinct P -> natoms P <> 0 -> termless P ->
+  Forall (fun m => length (m_idx m) = natoms P /\ length (m_placed m) = natoms P) sel ->
+  replace_from S P P false ig sel = Ok S' k -> same_terms S' S.
+Proof. exact self_replace_terms. Qed.
+Print Assumptions C08_self_replacement_terms.
 
 (* the hypothesis is needed: with two coincident same-element atoms the second one maps onto the first *)
 Example C08_distinct_needed :
@@ -33,3 +41,13 @@ Example C08_nonvacuous :
   | Ok S' k => (a_pos S', a_chg S', map (fun t => nth t (t_el S') 0%Z) (a_typ S')) = (a_pos S, a_chg S, [7%Z;1%Z;54%Z])
   | Overlap => False end.
 Proof. split; [split; [reflexivity|repeat constructor; cbn; intuition discriminate]|vm_compute; reflexivity]. Qed.
+
+Example C08_terms_nonvacuous :
+  let S := mk_atoms [(5,0,0)%Z; (15,0,0)%Z; (90,9,9)%Z] [0;1;2] [1%Z;2%Z;3%Z] [0%Z;1%Z;2%Z] [[];[];[]] [] [7%Z;1%Z;54%Z] [14%Z;1%Z;131%Z] [7%Z;1%Z;54%Z] []
+              (mk_kind [[0;1];[1;2]] [0;1] [[];[]] [] []) (mk_kind [[0;1;2]] [0] [[]] [] []) empty_kind empty_kind None in
+  let P := mk_atoms [(0,0,0)%Z; (10,0,0)%Z] [0;1] [0%Z;0%Z] [0%Z;0%Z] [[];[]] [] [7%Z;1%Z] [14%Z;1%Z] [7%Z;1%Z] [] empty_kind empty_kind empty_kind empty_kind None in
+  termless P /\
+  match replace_from S P P false false [mk_smatch [0;1] [(5,0,0)%Z; (15,0,0)%Z]] with
+  | Ok S' k => (k_tup (bonds S'), k_typ (bonds S'), k_tup (angles S')) = ([[0;1];[1;2]], [0;1], [[0;1;2]])
+  | Overlap => False end.
+Proof. split; [repeat split|vm_compute; reflexivity]. Qed.
